@@ -111,6 +111,7 @@ def run(ctx):
     r09b(ctx)
     r09c(ctx)
     r09d(ctx)
+    r09e(ctx)
 
 
 def r09b(ctx):
@@ -155,6 +156,131 @@ def r09c(ctx):
     oks = set(signed) >= {'tmcg_mpz_fpowm', 'tmcg_mpz_fspowm'}
     (ctx.ok if oks else ctx.bad)('R09c', 'R09c:sign', 'negative exponents are handled by inversion in the signed variants' if oks else
                                  'sign handling differs between the table-based powers: %s' % sigs, None, nec=False)
+
+
+def _same_object(x, y):
+    """two argument expressions that denote the same mpz object (same variable, same member of this, same cell)"""
+    def norm(e):
+        while isinstance(e, dict) and (e.get('k') in ('cast', 'paren') or (e.get('k') == 'un' and e.get('op') in ('&', '*'))):
+            e = e['e'] if 'e' in e else e['a'][0]
+        if not isinstance(e, dict):
+            return None
+        k = e.get('k')
+        if k == 'var':
+            return ('v', e.get('id'))
+        if k == 'mem':
+            o = norm(e.get('o')) if isinstance(e.get('o'), dict) and e['o'].get('k') != 'this' else ('this',)
+            return ('m', o, e.get('n'))
+        if k in ('idx', 'opcall') and (k == 'idx' or e.get('op') == '[]'):
+            return ('ix', norm(e['a'][0]), norm(e['a'][1]))
+        if k == 'int':
+            return ('i', e.get('v'))
+        return None
+    a, b = norm(x), norm(y)
+    return a is not None and a == b and a[0] != 'i'
+
+
+def alias_unsafe_pairs(prog, f):
+    """(result parameter index, input parameter index, line of the first write, line of the last read) for every pair of mpz
+    parameters of f such that the result is written before the input is read for the last time (statement order)"""
+    from ..statecover import GMP_OBSERVERS
+    pidx = {p['id']: i for i, p in enumerate(f['params']) if '__mpz_struct' in p['t']}
+    ev = []
+
+    def is_p(e):
+        while isinstance(e, dict) and e.get('k') in ('cast', 'paren'):
+            e = e['e']
+        return e.get('id') if isinstance(e, dict) and e.get('k') == 'var' and e.get('id') in pidx else None
+
+    def rec(e):
+        if isinstance(e, list):
+            for x in e:
+                rec(x)
+            return
+        if not isinstance(e, dict):
+            return
+        if e.get('k') == 'call':
+            name = e.get('f', '').replace('__gmpz_', 'mpz_')
+            args = e.get('a', [])
+            g = prog.funcs.get(e.get('fid')) if e.get('fid') else None
+            if name.startswith('mpz_') and name not in GMP_OBSERVERS:
+                for a in args[1:]:
+                    if is_p(a) is not None:
+                        ev.append(('r', is_p(a), e.get('l')))
+                    else:
+                        rec(a)
+                if args and is_p(args[0]) is not None:
+                    ev.append(('w', is_p(args[0]), e.get('l')))
+                elif args:
+                    rec(args[0])
+                return
+            for i, a in enumerate(args):
+                p = is_p(a)
+                if p is None:
+                    rec(a)
+                    continue
+                pt = g['params'][i]['t'] if g and i < len(g['params']) else ''
+                ev.append(('w' if (g is not None and '__mpz_struct *' in pt and not pt.startswith('const')) else 'r', p, e.get('l')))
+            return
+        p = is_p(e)
+        if p is not None:
+            ev.append(('r', p, e.get('l')))
+            return
+        for k, v in e.items():
+            if k not in ('t', 'n', 'f', 'fid', 'l', 'k', 'op'):
+                rec(v)
+    rec(f['body'])
+    out = []
+    for rid, ri in pidx.items():
+        if f['params'][ri]['t'].startswith('const'):
+            continue
+        fw = [j for j, (kd, p, l) in enumerate(ev) if kd == 'w' and p == rid]
+        if not fw:
+            continue
+        for xid, xi in pidx.items():
+            if xid == rid:
+                continue
+            lr = [j for j, (kd, p, l) in enumerate(ev) if kd == 'r' and p == xid]
+            if lr and fw[0] < lr[-1]:
+                out.append((ri, xi, ev[fw[0]][2], ev[lr[-1]][2]))
+    return out
+
+
+def r09e(ctx):
+    """operand aliasing: GMP functions accept the same object as result and operand, the library's own primitives do not
+    all do so -- tmcg_mpz_spowm clears its result before it copies the exponent.  For every primitive of the arithmetic
+    units the pairs (result parameter, input parameter) with "result written before the input was read for the last time"
+    are computed from the statement order of its body; no call site in the library may pass one object in both roles
+    (the call then computes with a clobbered operand: g^0 instead of g^x, silently)."""
+    prog = ctx.prog
+    table = {}
+    for k, f in prog.funcs.items():
+        if f.get('body') and f['file'].endswith(ARITH_UNITS + ('mpz_srandom.cc',)):
+            pr = alias_unsafe_pairs(prog, f)
+            if pr:
+                table[k] = (f, pr)
+    n = 0
+    nbad = 0
+    for k, g in sorted(prog.funcs.items(), key=lambda kv: (kv[1]['file'], kv[1]['line'])):
+        if not g.get('body'):
+            continue
+        for e in walk(g['body']):
+            if e.get('k') != 'call' or e.get('fid') not in table:
+                continue
+            f, pairs = table[e['fid']]
+            args = e.get('a', [])
+            n += 1
+            for ri, xi, lw, lr in pairs:
+                if ri < len(args) and xi < len(args) and _same_object(args[ri], args[xi]):
+                    nbad += 1
+                    ctx.bad('R09e', 'R09e:%s:%s(%s=%s)' % (g['q'], f['q'], f['params'][ri]['n'], f['params'][xi]['n']),
+                            '%s is called with one object as result `%s` and as operand `%s`, but it writes the result (line %s) before it reads that operand '
+                            'for the last time (line %s): the operand is clobbered and the call silently computes something else' % (
+                                f['q'], f['params'][ri]['n'], f['params'][xi]['n'], lw, lr), g, line=e.get('l'))
+    if nbad == 0:
+        ctx.ok('R09e', 'R09e:no-unsafe-aliasing', 'none of the %d call sites of the %d primitives with an alias-unsafe (result, operand) pair passes one object in both roles' % (n, len(table)))
+    ctx.floor('R09e', len(table), 8)
+    ctx.floor('R09e:sites', n, 100)
 
 
 ARITH_UNITS = ('mpz_spowm.cc', 'mpz_sqrtm.cc', 'mpz_sprime.cc', 'mpz_helper.cc', 'mpz_shash.cc', 'TMCG_Bigint.cc')
